@@ -233,6 +233,37 @@ pub fn check_stream(ctx: &mut Ctx, sc: &StreamCase, rng: &mut Rng, plan: &Plan) 
     if len < 2 {
         return;
     }
+    // "delivered in stream order, each exactly once" also when the application does not empty the queue
+    // after every read: it takes one (or two) requests per read and the rest at the end
+    if reference.fault.is_none() && reference.delivered.len() >= 2 {
+        for (k, cuts) in [(1usize, crate::gen::const_cuts(len, 64)), (1, crate::gen::const_cuts(len, 1024)), (2, crate::gen::const_cuts(len, 200)), (1, crate::gen::random_cuts(rng, len, 6))] {
+            ctx.begin();
+            ctx.rep.evaluations += 1;
+            ctx.rep.count("partial_collection_runs");
+            let (got, err, fault) = crate::conn::run_stream_partial_pop(Some(sc.limit), sc.stream, &cuts, k);
+            if fault.is_some() || got != reference.delivered || err != reference.error {
+                let mut c = case_json(sc.stream, sc.limit, &cuts, Gap::None, false);
+                if let J::Obj(kv) = &mut c {
+                    kv.push(("take_per_read".to_string(), J::u(k as u64)));
+                }
+                ctx.rep.violation(
+                    "C01:order-depends-on-collection",
+                    format!(
+                        "taking at most {} request(s) after each read (cuts {:?}) the application receives {} requests in the order {:?} (error {:?}, fault {:?}); stream order is {:?}",
+                        k,
+                        &cuts[..cuts.len().min(8)],
+                        got.len(),
+                        got.iter().map(|r| r.uri.clone()).collect::<Vec<_>>(),
+                        err,
+                        fault,
+                        reference.delivered.iter().map(|r| r.uri.clone()).collect::<Vec<_>>()
+                    ),
+                    c,
+                );
+                return;
+            }
+        }
+    }
     let mut bad = 0usize;
     let mut run = |ctx: &mut Ctx, cuts: &[usize], gap: Gap, eof: bool| {
         if bad >= 3 {
@@ -690,5 +721,13 @@ pub fn replay(ctx: &mut Ctx, case: &J) {
     let sc = StreamCase { stream: &stream, layouts: None, limit };
     let sfp = 0;
     ctx.only_case = None;
+    if let Some(k) = case.get("take_per_read").and_then(|k| k.as_u64()) {
+        let (got, err, fault) = crate::conn::run_stream_partial_pop(Some(limit), &stream, &cuts, k as usize);
+        println!("taking {} per read: {:?} error {:?} fault {:?}", k, got.iter().map(|r| r.uri.clone()).collect::<Vec<_>>(), err, fault);
+        if fault.is_some() || got != reference.delivered || err != reference.error {
+            ctx.rep.violation("C01:order-depends-on-collection", "the order in which requests are handed out depends on how many the application takes per read".into(), case.clone());
+        }
+        return;
+    }
     exec(ctx, &sc, &reference, &m, sfp, &cuts, gap, eof);
 }
